@@ -179,7 +179,13 @@ def zero_divisor(ctx, config="all"):
             continue
         v = prog.view(b, (65, 2))
         where = "%s:%s" % (b["file"], b["line"])
-        es = edges_matching(v, r"is_zero|le|partial_cmp", True)
+        # edges on which the modulus is known to be zero, however the test is written (is_zero, == ZERO, != ZERO ...)
+        from . import total_rule
+        T = total_rule.totality(ctx, config)
+        mods = [l for l in range(1, v.nargs + 1) if (v.local_name(l) or "") == "modulus"] or [v.nargs]
+        es = [e for m in mods for e in T.zero_test_edges(v, m)]
+        if not es:
+            es = edges_matching(v, r"is_zero|le|partial_cmp", True)
         good = False
         for (bi, s) in es:
             # the value assigned to _0 along the single-successor chain from s
@@ -208,40 +214,66 @@ def zero_divisor(ctx, config="all"):
 
 
 def buffers(ctx, config="all"):
-    rep = Report("R-GUARD/buffers", "checked_copy_{le,be}_bytes_to touch the buffer only on the false edge of "
-                 "`buf.len() < BYTES` (a too-short buffer is left untouched); try_from_{be,le}_slice write limbs only "
-                 "after the `len > BYTES -> None` test")
+    """R-GUARD/buffers: checked_copy_{le,be}_bytes_to hand the buffer to a writer only when it is long enough.
+
+    Decided on the interval interpretation per configuration: at every call of a function of this crate that
+    receives (a slice of) the caller's buffer, the length interval of the slice passed has a lower bound >= BYTES.
+    How the length is established (a `len() < BYTES` test, `get_mut(..BYTES)?`, a match) is not prescribed."""
+    from . import total_rule
+    rep = Report("R-GUARD/buffers", "checked_copy_{le,be}_bytes_to pass the buffer to a writing function of the crate only "
+                 "with a length >= BYTES in every configuration (interval of the slice length at the call): a too-short "
+                 "buffer is left untouched and yields None")
     prog = ctx.prog(config)
+    T = total_rule.totality(ctx, config)
+    bytes_cfg = prog.const_cfg.get(ir.BYTES_CONST, {})
     for e in ("le", "be"):
         k = "crate::bytes::<impl %s>::checked_copy_%s_bytes_to" % (U, e)
         b = prog.bodies.get(k)
         if b is None:
             rep.violation("missing:checked_copy_%s" % e, "", "not found")
             continue
-        v = prog.view(b, (65, 2))
         where = "%s:%s" % (b["file"], b["line"])
         bad = None
         n_uses = 0
-        for bi, t in v.calls():
-            name = ir.callee_name(t["fn"]) or ""
-            if name.endswith("::len"):
+        for cfg in ctx.cfgs():
+            want = bytes_cfg.get(cfg)
+            if want is None:
                 continue
-            sl = Slice(v)
-            for a in t["args"]:
-                sl.operand(a)
-            if 2 in sl.params:
-                n_uses += 1
-                conds = total.dominating_conditions(v, bi)
-                if not any(d.startswith("Lt(len(),") and tr is False for d, tr in conds):
-                    bad = (name, v.where(bi))
+            a = T.ai(k, cfg)
+            v = a.v
+            for bi, t in v.calls():
+                name = ir.callee_name(t["fn"]) or ""
+                if name not in prog.bodies:
+                    continue    # foreign calls (len, get_mut, Try::branch, ...) do not write through the buffer
+                st = a.state_before_term(bi)
+                if st is None:
+                    continue
+                for arg in t["args"]:
+                    if arg.get("o") not in ("copy", "move") or arg["p"]:
+                        continue
+                    pt = a.pointee_ty(arg["l"])
+                    if pt is None or pt.get("k") != "slice":
+                        continue
+                    sl = Slice(v)
+                    sl.operand(arg)
+                    if 2 not in sl.params:
+                        continue
+                    n_uses += 1
+                    lk = a.len_key(arg["l"], st)
+                    iv = None
+                    if lk is not None:
+                        iv = (lk[1], lk[1]) if lk[0] == "const" else a.get(st, lk)
+                    if iv is None or iv[0] < want:
+                        bad = bad or (name.replace("crate::", ""), v.where(bi), cfg, iv, want)
         if bad:
-            rep.violation("checked_copy_%s|guard" % e, where, "the buffer is passed to %s at %s without being dominated by the "
-                          "false edge of `buf.len() < BYTES`: a too-short buffer may be written / panic" % bad)
+            rep.violation("checked_copy_%s|guard" % e, where, "the buffer is passed to %s at %s with a length of %s where BYTES "
+                          "is %d (configuration (%d,%d)): a too-short buffer may be written / panic instead of returning "
+                          "None" % (bad[0], bad[1], ("[%d, %d]" % bad[3]) if bad[3] else "unknown", bad[4], bad[2][0], bad[2][1]))
         elif n_uses == 0:
-            rep.violation("checked_copy_%s|guard" % e, where, "no use of the buffer found (shape not recognised)")
+            rep.violation("checked_copy_%s|guard" % e, where, "no call that receives the buffer found (shape not recognised)")
         else:
-            rep.ok("checked_copy_%s|guard" % e, where, "%d buffer use(s), all behind the length guard" % n_uses)
-    rep.analysed = {"build_config": config}
+            rep.ok("checked_copy_%s|guard" % e, where, "%d buffer hand-over(s), all with length >= BYTES" % n_uses)
+    rep.analysed = {"build_config": config, "configurations": len(ctx.cfgs())}
     return rep
 
 
